@@ -17,7 +17,7 @@
    FIFO monitor reports such an overtaking like any other. *)
 From Hive.Base Require Import Prelude.
 From Hive.Model Require Import Types KernelBase SimOps States Step.
-From Hive.Proofs Require Import Queue VehFrame Macro CountInv QueueServe.
+From Hive.Proofs Require Import Queue VehFrame Macro CountInv QueueServe QueueFifo.
 From Coq Require Import Sorting.Permutation Sorting.Sorted.
 
 Theorem C18_order_is_others_then_queue : forall s, update_order s = other_part s ++ queued_part s.
@@ -45,6 +45,19 @@ Theorem C18_offered_plug_is_taken : forall env, (forall g, e_fence env g = true)
   can_use env s v qs qc -> terminal env vid (ChargeQueueing qs qc t) s = true ->
   exists s', vs_update env vid (ChargeQueueing qs qc t) s = Ok s'.
 Proof. exact offered_plug_is_taken. Qed.
+(* the combined statement: within one update pass, if a vehicle u of the queue finds a plug of type (sid, cid) free at its turn,
+   every vehicle w processed earlier in the queued part that waits for that plug type (and can use it) is CHARGING on it after
+   its own turn — from any state satisfying the counts and places invariants (both proved over every history) *)
+Theorem C18_earlier_in_queue_is_charging : forall env, (forall g, e_fence env g = true) -> forall s l1 w l2 u l3 sid cid tw,
+  vkeys s -> Inv_counts s -> PlaceInv.Inv_place s ->
+  queued_part s = l1 ++ w :: l2 ++ u :: l3 -> v_state w = ChargeQueueing sid cid tw ->
+  let s_w := pass_prefix env s (other_part s ++ l1) in
+  let s_u := pass_prefix env s (other_part s ++ l1 ++ w :: l2) in
+  can_use env s_w w sid cid ->
+  forall cs_u, slook (stations s_u) sid cid = Some cs_u -> (0 < cs_avail cs_u)%Z ->
+  vstate_of (pass_prefix env s_w [w]) (v_id w) = Some (ChargingStation sid cid).
+Proof. exact fifo_earlier_is_charging. Qed.
+Print Assumptions C18_earlier_in_queue_is_charging.
 Print Assumptions C18_offered_plug_is_taken.
 Print Assumptions C18_offered_in_queue_order. Print Assumptions C18_offered_and_updated_leaves_queue.
 
